@@ -55,6 +55,10 @@ type propSpec struct {
 	// hang/deadlock"; a watchdog kill is then reported through the
 	// harness's own stall detector, never through this flag alone.
 	NeedInstr bool // needs the instrumented unix_volume.go
+	// QuickNoRace: the race detector is only an observer for this property
+	// (reports counted, never judged); the quick tier runs the plain binary
+	// and only the thorough tier pays for -race.
+	QuickNoRace bool
 	// RaceDeciding: path substrings of the sources whose race-freedom the
 	// property's statement covers. A race-detector report with an access
 	// stack containing one of them is a violation "race:<site key>"; all
@@ -730,6 +734,14 @@ func runCheck(id, tier, only string) int {
 	}
 	if err := prepare(p.NeedInstr); err != nil {
 		return fail("prepare: " + err.Error())
+	}
+	if tier == "quick" && p.QuickNoRace {
+		cp := *p
+		cp.Pkgs = append([]pkgSpec(nil), p.Pkgs...)
+		for i := range cp.Pkgs {
+			cp.Pkgs[i].Race = false
+		}
+		p = &cp
 	}
 	for _, pk := range p.Pkgs {
 		if err := buildPkg(pk); err != nil {
